@@ -23,6 +23,86 @@ PROPS = {
                        "the text, literal matches form a chain and are character-aligned in valid UTF-8, character = string pattern, a chain "
                        "of splits refines the previous stage. Tied to src/config/split.rs and Configuration::split by differential runs.",
     },
+    "C02": {
+        "level": "proof",
+        "rule": "ENC2 ops through Kitoken::encode in both modes: 120 (quick) / 1500 (thorough) generated definitions of all four kinds with "
+                "normalization, split, specials (all kinds, extracted or not, look-alikes), suffix/prefix, processing x 40/150 texts "
+                "interleaving special strings, multi-byte text, >192-unit runs; the 23 loadable shipped models x 60/1500 texts (recorded "
+                "corpora lines, generated text, single scalar values). Verdict: the ids, mapped back to bytes (suffix kept, continuation "
+                "prefix dropped), spell the concatenation of the encoder's parts exactly whenever no unknown id occurs. Non-trivial: "
+                "at least one token returned.",
+        "trusted_base": CORE_TB + ["modelled, not verified: fancy-regex (find_iter / replace_all), unicode-normalization, std case mapping, unicode-script, "
+                                   "bstr grapheme segmentation — oracle tables recorded through verif-hooks on every call; a model request "
+                                   "missing from the table (MISS) is a correspondence failure", "hashbrown maps as finite maps"],
+        "assumptions": ["the left inverse of the vocabulary map exists (ids are injective: checked by the constructor)"],
+        "explanation": "Lean theorems: per-segment accounting for BPE (bpe_accounting, bpe_segments_cover, bpe_spelling), Unigram "
+                       "(unigram_accounting: the rendered walk covers the piece; unigram_spelling) and WordPiece (wordpiece_spelling), for "
+                       "every vocabulary, piece, fallback list and buffer state; the pipeline parts are the cut-wise specification (C07). "
+                       "Tied to the code by differential runs of the whole pipeline.",
+    },
+    "C06": {
+        "level": "proof",
+        "rule": "BPE/UNI/WP ops on generated vocabularies with holes: all three kinds x every fallback list over {Bytes, Unknown, Skip} up to "
+                "length 3 (incl. empty) x unknown defined or not x suffix on/off x all 256 bytes present or not x pieces hitting holes at "
+                "start/middle/end, short and 150..600 units (150 definitions x 50 pieces quick, 1500 x 120 thorough) plus the F5/F7 corpus "
+                "witnesses. Judged by the fallback specification (Spec.bpePieceSpec / wordSpec / uniCheck). Non-trivial: token or error.",
+        "trusted_base": CORE_TB + ["hashbrown maps as finite maps"],
+        "assumptions": ["ranks fit u32; vocabulary ids differ from u32::MAX; interpretation of 'first applicable entry' = head of the list (DESIGN.md §5)"],
+        "explanation": "Lean theorems: leaf_cases / hole_cases (what each head does), bpe_follows_chain and bpe_heap_follows_chain (emission "
+                       "loop incl. byte-level recursion on the shared buffer = Spec.bpeSegments), unigram_follows_chain (rendered walk), "
+                       "wordpiece_follows_chain, and no panic for any fallback list for the three encoders. Tied by differential runs.",
+    },
+    "C07": {
+        "level": "proof",
+        "rule": "ENC7 ops through Kitoken::encode in both modes on generated definitions mixing control/priority/unknown specials, extracted "
+                "and non-extracted, look-alike strings ('<s', '<s>>', '<S>', '< s>', '▁<s>'), with normalizations that alter text, and the "
+                "23 shipped models (up to 771 specials) with texts interleaving their special strings. Verdict: no control id with "
+                "encoding off; the recognized specials appear as exactly their ids in order. Non-trivial: token or error returned.",
+        "trusted_base": CORE_TB + ["modelled, not verified: fancy-regex (find_iter / replace_all), unicode-normalization, std case mapping, unicode-script, "
+                                   "bstr grapheme segmentation — oracle tables recorded through verif-hooks on every call; a model request "
+                                   "missing from the table (MISS) is a correspondence failure", "hashbrown maps as finite maps"] + ["the special-token regexes (alternations of escaped literals) are modelled as a leftmost-first literal "
+                                   "scan (Pipeline.scanLiterals); agreement with fancy-regex is part of the correspondence"],
+        "assumptions": ["special texts are non-empty and valid UTF-8 (SpecialsWF) for the equalities with the cut-wise specification; "
+                        "the no-control theorems need no hypothesis",
+                        "control ids disjoint from vocabulary ids and the unknown id for the output-level reading (true of all shipped models; "
+                        "the verdict ignores ids that are also vocabulary ids)"],
+        "explanation": "Lean theorems: scan_chain, scan_leftmost_first, scan_complete, scan_aligned; stageA_eq_spec and stageB_eq_spec (both "
+                       "passes equal the cut-wise specification: each side of a special is handled by itself); stageA/parts_no_control_when_off; "
+                       "stageA_special_atomic; second_pass_mode_independent; process_ids_provenance (only Pad inserts ids). Tied by differential runs.",
+    },
+    "C09": {
+        "level": "proof",
+        "rule": "ENC9 ops (verdict: output = post-processing of the concatenation of per-part specifications computed on fresh state) and "
+                "REF9 ops (the property's reference composition through the public normalize/split functions and a tokenizer stripped of "
+                "normalization/split/specials, for texts without special strings, compared with the model's whole-pipeline answer) on the "
+                "generated definitions and shipped models of C02; pieces of mixed short and >192-unit lengths in one text. Non-trivial: token or error.",
+        "trusted_base": CORE_TB + ["modelled, not verified: fancy-regex (find_iter / replace_all), unicode-normalization, std case mapping, unicode-script, "
+                                   "bstr grapheme segmentation — oracle tables recorded through verif-hooks on every call; a model request "
+                                   "missing from the table (MISS) is a correspondence failure", "hashbrown maps as finite maps"],
+        "assumptions": ["parts are valid UTF-8 (they are Rust strs): hypothesis hv of bpe_parts_independent, needed only for long pieces in "
+                        "character mode"],
+        "explanation": "Lean theorems: for each encoder the encoding of a list of parts equals the in-order concatenation of per-part "
+                       "results computed from the part's text alone (scratch buffers, un-cleared character-mode buffer, fallback recursion, "
+                       "result reversal all proved irrelevant); seqRes_append; special_part_alone; pipeline_eq_composition. Purity across "
+                       "calls: Lean functions are pure and the source has no interior mutability besides the NMT regex cell (C19). Tied by differential runs.",
+    },
+    "C11": {
+        "level": "proof",
+        "rule": "NORM ops through Configuration::normalize: exhaustively all strings up to length 4 (quick) / 6 (thorough) over {a, space, é, ▁} "
+                "x Strip/Extend (counts 0,1,2,u32::MAX; pad on/off)/Collapse/Replace (character, string incl. empty and overlapping); NMT over all "
+                "listed code points and neighbours (thorough: every scalar value), case folding and the four Unicode forms over sampled scalars "
+                "(oracle-backed), sequences of up to 6 steps incl. regex Replace with capture groups and nested conditionals at segment starts "
+                "0/non-0 and open/closed ends. Verdict: character-level specification for single built-in steps, valid UTF-8 always.",
+        "trusted_base": CORE_TB + ["modelled, not verified: fancy-regex (find_iter / replace_all), unicode-normalization, std case mapping, unicode-script, "
+                                   "bstr grapheme segmentation — oracle tables recorded through verif-hooks on every call; a model request "
+                                   "missing from the table (MISS) is a correspondence failure", "hashbrown maps as finite maps"],
+        "assumptions": ["PARTIAL: Unicode normal forms, case mapping and regex Replace are external libraries (oracles): for them only order, "
+                        "conditions and UTF-8 validity are covered; equality with 'the standard ones' is not proved here"],
+        "explanation": "Lean theorems over all texts: strip_chars/strip_spec, extend_chars/extend_bytes_valid (the unsafe splice equals the "
+                       "UTF-8 encoding of the character-level result), collapse_* (no adjacent copies, others untouched, idempotent), "
+                       "replace_literal_chars, nmt_chars with tables regenerated from the source and nmt_sets_disjoint, conditional_iff, "
+                       "steps_in_order, empty_text_untouched, builtin_steps_valid. Tied by differential runs.",
+    },
     "C12": {
         "level": "proof",
         "rule": "CMAP_LOAD ops: generated blobs (0..6 units, truncated, inconsistent size fields, minimal sizes 0/1/3/4 bytes) and the "
@@ -126,8 +206,10 @@ def nontrivial(prop, request, impl):
     op = parts[0]
     if op == "PROC":
         return impl != "OK " + parts[2]
-    if op in ("WP", "BPE", "UNI", "ENC"):
+    if op in ("WP", "BPE", "UNI", "ENC", "ENC2", "ENC7", "ENC9", "ENC18", "REF9", "RT"):
         return impl not in ("OK -",)
+    if op == "NORM":
+        return parts[4] != "-"
     if op in ("NORMS",):
         return parts[4] != "-"
     if op == "CMAP_LOAD":
